@@ -5,6 +5,7 @@ package registry_test
 import (
 	"bytes"
 	"database/sql"
+	"errors"
 	"encoding/binary"
 	"encoding/hex"
 	"fmt"
@@ -25,14 +26,51 @@ import (
 // parkStore lets the harness hold a Put between its read of the stored entry and what
 // follows, so that a second Put can be raced against it (schedule exploration at the
 // granularity of the manager's store calls).
+//
+// It also injects one-shot faults into the manager's store calls (an error that is neither
+// ErrEntryNotFound nor ErrNotEnoughSpace, as the sqlite store returns when it gives up on a busy
+// database), and notes flushes of the access recorder that the harness did not ask for.
 type parkStore struct {
 	*sqlite.Store
 	armed   atomic.Bool
 	parked  chan struct{}
 	release chan struct{}
+
+	failGet, failSet, failEntries, failAccess atomic.Bool
+	expectFlush                               atomic.Bool
+	timerFlushes                              atomic.Int32
+}
+
+var errVerifInjected = errors.New("transaction failed (attempt 10): database is locked (injected)")
+
+func (p *parkStore) SetRegistryValue(entry rhp3.RegistryEntry, expiration uint64) error {
+	if p.failSet.CompareAndSwap(true, false) {
+		return errVerifInjected
+	}
+	return p.Store.SetRegistryValue(entry, expiration)
+}
+
+func (p *parkStore) RegistryEntries() (uint64, uint64, error) {
+	if p.failEntries.CompareAndSwap(true, false) {
+		return 0, 0, errVerifInjected
+	}
+	return p.Store.RegistryEntries()
+}
+
+func (p *parkStore) IncrementRegistryAccess(read, write uint64) error {
+	if !p.expectFlush.Load() {
+		p.timerFlushes.Add(1) // the recorder's 10 s timer fired inside a case
+	}
+	if p.failAccess.CompareAndSwap(true, false) {
+		return errVerifInjected
+	}
+	return p.Store.IncrementRegistryAccess(read, write)
 }
 
 func (p *parkStore) GetRegistryValue(key rhp3.RegistryKey) (rhp3.RegistryValue, error) {
+	if p.failGet.CompareAndSwap(true, false) {
+		return rhp3.RegistryValue{}, errVerifInjected
+	}
 	v, err := p.Store.GetRegistryValue(key)
 	if p.armed.CompareAndSwap(true, false) {
 		p.parked <- struct{}{}
@@ -60,7 +98,7 @@ func TestVerifC20(t *testing.T) {
 	// alphabet {Put(k in 0..1, rev in 0..2), SetLimit 0..2} (small-scope exhaustive search)
 	enumLen := verifEnvInt("VERIF_C20_ENUM", 0)
 	const alpha = 10
-	const directed = 3 // ids 0..2
+	const directed = 5 // ids 0..4
 	enumTotal := 0
 	for l, p := 1, alpha; l <= enumLen; l, p = l+1, p*alpha {
 		enumTotal += p
@@ -82,7 +120,7 @@ func TestVerifC20(t *testing.T) {
 			t.Fatal(err)
 		}
 		ps := &parkStore{Store: db, parked: make(chan struct{}), release: make(chan struct{})}
-		reg := registry.NewManager(hostKey, ps, log)
+		reg := registry.NewManager(hostKey, ps, log) // replaced by flush()
 
 		vids := map[string]uint64{}
 		vidOf := func(v rhp3.RegistryValue) string {
@@ -108,6 +146,8 @@ func TestVerifC20(t *testing.T) {
 		shadowExp := map[int]uint64{} // and the expiration height passed with it
 		lowered := false
 		curLimit := uint64(0)
+		flushed := false             // the access recorder has been flushed in this case
+		var accR, accW, perR, perW int64 // reference: pending and persisted access counts
 
 		setLimit := func(l uint64) {
 			cnt, _, _ := reg.Entries()
@@ -142,7 +182,11 @@ func TestVerifC20(t *testing.T) {
 				}
 			}
 			if cnt != m.Registry.Entries {
-				em.Monitor("count-differs-from-metric", fmt.Sprintf("count %d metric %d", cnt, m.Registry.Entries))
+				if flushed {
+					em.Monitor("metric-differs-from-count-after-flush", fmt.Sprintf("count %d, registry-entries metric %d after the access recorder was flushed", cnt, m.Registry.Entries))
+				} else {
+					em.Monitor("count-differs-from-metric", fmt.Sprintf("count %d metric %d", cnt, m.Registry.Entries))
+				}
 			}
 			if int(cnt) != len(shadow) {
 				em.Monitor("count-differs-from-accepted-keys", fmt.Sprintf("count %d accepted keys %d", cnt, len(shadow)))
@@ -178,6 +222,7 @@ func TestVerifC20(t *testing.T) {
 			obs := "OGet None"
 			got := "None"
 			if err == nil {
+				accR++
 				got = vidOf(v)
 				obs = "OGet " + got
 			}
@@ -191,7 +236,9 @@ func TestVerifC20(t *testing.T) {
 			}
 			return v
 		}
-		put := func(k int) {
+		var putWith func(k int, fault string)
+		put := func(k int) { putWith(k, "") }
+		putWith = func(k int, fault string) {
 			key := keyOf(k)
 			e := rhp3.RegistryEntry{RegistryKey: key}
 			e.Revision = uint64(rng.Intn(4))
@@ -226,7 +273,7 @@ func TestVerifC20(t *testing.T) {
 			valid := rhp3.ValidateRegistryEntry(e) == nil
 			// core's ordering verdict against what the host currently stores
 			tie := false
-			old, gerr := reg.Get(key)
+			old, gerr := db.GetRegistryValue(key) // not through the manager: its Get counts as an access
 			hasOld := gerr == nil
 			if hasOld && valid {
 				tie = rhp3.ValidateRegistryUpdate(rhp3.RegistryEntry{RegistryKey: key, RegistryValue: old}, e, hostID) == nil
@@ -236,7 +283,32 @@ func TestVerifC20(t *testing.T) {
 			if rng.Intn(16) == 0 {
 				exp = []uint64{0, 1<<63 - 1, 1 << 63, ^uint64(0)}[rng.Intn(4)]
 			}
+			if fault != "" {
+				// the manager's lookup of the stored entry (or its write) fails once
+				if fault == "lookup" {
+					ps.failGet.Store(true)
+				} else {
+					ps.failSet.Store(true)
+				}
+				ret, err := reg.Put(e, exp)
+				ps.failGet.Store(false)
+				ps.failSet.Store(false)
+				f := map[string]string{"lookup": "FLookup", "write": "FWrite"}[fault]
+				em.Step(fmt.Sprintf("PutF %d %s %s %s", k, entryOf(e.RegistryValue), coqBool(valid), f),
+					fmt.Sprintf("OPut %s %s", coqBool(err == nil), vidOf(ret)))
+				em.Count(fmt.Sprintf("putfault:%s,valid=%v,stored=%v,accepted=%v", fault, valid, hasOld, err == nil))
+				if err == nil {
+					em.Monitor("update-accepted-although-"+fault+"-failed", fmt.Sprintf("key %d: Put returned nil although the store's %s failed (stored: %v)", k, fault, hasOld))
+					if hasOld && !tie {
+						em.Monitor("accepted-non-superseding-update", fmt.Sprintf("key %d old rev %d new rev %d (the lookup of the stored entry failed)", k, old.Revision, e.Revision))
+					}
+				}
+				return
+			}
 			ret, err := reg.Put(e, exp)
+			if err == nil && hasOld {
+				accW++
+			}
 			if err == nil && !hasOld && cntBefore >= limBefore {
 				em.Monitor("insert-accepted-without-room", fmt.Sprintf("new key %d accepted with count %d >= limit %d", k, cntBefore, limBefore))
 			}
@@ -259,6 +331,73 @@ func TestVerifC20(t *testing.T) {
 			}
 		}
 
+		// access: host_stats registryReads / registryWrites against the reference counts.  Skipped once
+		// the recorder's own 10 s timer has fired inside the case (an unrecorded flush).
+		access := func() {
+			if ps.timerFlushes.Load() > 0 {
+				em.Count("access:skipped-timer-flush")
+				return
+			}
+			m, err := db.Metrics(time.Now().Add(time.Hour))
+			if err != nil {
+				t.Fatal(err)
+			}
+			em.Step("Access", fmt.Sprintf("OAccess %d %d", m.Registry.Reads, m.Registry.Writes))
+			if int64(m.Registry.Reads) != perR || int64(m.Registry.Writes) != perW {
+				em.Monitor("access-metrics-differ-from-flushed-accesses", fmt.Sprintf("reads %d writes %d, flushed %d / %d", m.Registry.Reads, m.Registry.Writes, perR, perW))
+			}
+		}
+		// flush: Manager.Close flushes the access recorder; a new manager takes over the same store
+		flush := func(ok bool) {
+			if !ok {
+				ps.failAccess.Store(true)
+			}
+			ps.expectFlush.Store(true)
+			func() {
+				defer func() {
+					if r := recover(); r != nil {
+						em.Monitor("registry-close-panics", fmt.Sprint(r))
+					}
+				}()
+				reg.Close()
+			}()
+			ps.expectFlush.Store(false)
+			ps.failAccess.Store(false)
+			reg = registry.NewManager(hostKey, ps, log)
+			if ok {
+				perR, perW = perR+accR, perW+accW
+			}
+			accR, accW = 0, 0
+			flushed = true
+			em.Step("Flush "+coqBool(ok), "ODone")
+			em.Count(fmt.Sprintf("op:Flush,ok=%v", ok))
+			access()
+		}
+		getFault := func(k int) {
+			ps.failGet.Store(true)
+			v, err := reg.Get(keyOf(k))
+			ps.failGet.Store(false)
+			obs := "OGet None"
+			if err == nil {
+				obs = "OGet " + vidOf(v)
+				em.Monitor("read-succeeded-although-lookup-failed", fmt.Sprintf("key %d", k))
+			}
+			em.Step(fmt.Sprintf("GetF %d", k), obs)
+			em.Count("op:GetF")
+		}
+		infoFault := func() {
+			ps.failEntries.Store(true)
+			_, _, err := reg.Entries()
+			ps.failEntries.Store(false)
+			obs := "OFail"
+			if err == nil {
+				obs = "ODone"
+				em.Monitor("entries-succeeded-although-count-read-failed", "")
+			}
+			em.Step("InfoF", obs)
+			em.Count("op:InfoF")
+		}
+
 		// race: two Puts on one key, the first held right after it read the stored entry.
 		// Whatever the interleaving, the outcome must be that of one of the two orders;
 		// the steps are recorded in the order in which the Puts took effect.
@@ -270,7 +409,7 @@ func TestVerifC20(t *testing.T) {
 				return e
 			}
 			ea, eb := mk(uint64(rng.Intn(4)), 1), mk(uint64(rng.Intn(4)), 2)
-			pre, perr := reg.Get(key)
+			pre, perr := db.GetRegistryValue(key)
 			hasPre := perr == nil
 			type result struct {
 				ret rhp3.RegistryValue
@@ -312,6 +451,9 @@ func TestVerifC20(t *testing.T) {
 				em.Step(fmt.Sprintf("Put %d %s 100 true %s", k, entryOf(e.RegistryValue), coqBool(tie)),
 					fmt.Sprintf("OPut %s %s", coqBool(r.err == nil), vidOf(r.ret)))
 				if r.err == nil {
+					if has {
+						accW++
+					}
 					if has && !tie {
 						em.Monitor("accepted-non-superseding-update", fmt.Sprintf("racing puts on key %d: stored rev %d, accepted rev %d", k, stored.Revision, e.Revision))
 					}
@@ -336,6 +478,53 @@ func TestVerifC20(t *testing.T) {
 			em.Count("op:Tip")
 		}
 
+		dput := func(k int, rev uint64, d byte, exp uint64) {
+			e := rhp3.RegistryEntry{RegistryKey: keyOf(k), RegistryValue: rhp3.RegistryValue{Revision: rev, Type: rhp3.EntryTypeArbitrary, Data: []byte{d}}}
+			e.Signature = renters[k/2].SignHash(e.Hash())
+			tie := false
+			old, gerr := db.GetRegistryValue(e.RegistryKey)
+			if gerr == nil {
+				tie = rhp3.ValidateRegistryUpdate(rhp3.RegistryEntry{RegistryKey: e.RegistryKey, RegistryValue: old}, e, hostID) == nil
+			}
+			ret, err := reg.Put(e, exp)
+			em.Step(fmt.Sprintf("Put %d %s %d true %s", k, entryOf(e.RegistryValue), exp, coqBool(tie)), fmt.Sprintf("OPut %s %s", coqBool(err == nil), vidOf(ret)))
+			if err == nil && gerr == nil {
+				accW++
+			}
+			if err == nil {
+				shadow[k] = vidOf(e.RegistryValue)
+				shadowExp[k] = exp
+			}
+		}
+		all := func() {
+			for k := 0; k < 4; k++ {
+				get(k)
+				expOf(k)
+			}
+			info()
+		}
+		// a directed Put during which the store's lookup or write fails once
+		dputF := func(k int, rev uint64, d byte, fault string) {
+			e := rhp3.RegistryEntry{RegistryKey: keyOf(k), RegistryValue: rhp3.RegistryValue{Revision: rev, Type: rhp3.EntryTypeArbitrary, Data: []byte{d}}}
+			e.Signature = renters[k/2].SignHash(e.Hash())
+			old, gerr := db.GetRegistryValue(e.RegistryKey)
+			if fault == "lookup" {
+				ps.failGet.Store(true)
+			} else {
+				ps.failSet.Store(true)
+			}
+			ret, err := reg.Put(e, 100)
+			ps.failGet.Store(false)
+			ps.failSet.Store(false)
+			f := map[string]string{"lookup": "FLookup", "write": "FWrite"}[fault]
+			em.Step(fmt.Sprintf("PutF %d %s true %s", k, entryOf(e.RegistryValue), f), fmt.Sprintf("OPut %s %s", coqBool(err == nil), vidOf(ret)))
+			if err == nil {
+				em.Monitor("update-accepted-although-"+fault+"-failed", fmt.Sprintf("key %d: Put returned nil although the store's %s failed (stored: %v)", k, fault, gerr == nil))
+				if gerr == nil && rhp3.ValidateRegistryUpdate(rhp3.RegistryEntry{RegistryKey: e.RegistryKey, RegistryValue: old}, e, hostID) != nil {
+					em.Monitor("accepted-non-superseding-update", fmt.Sprintf("key %d old rev %d new rev %d (the lookup of the stored entry failed)", k, old.Revision, e.Revision))
+				}
+			}
+		}
 		if id == 0 {
 			// directed corpus case: the capacity witness of c20_capacity_refuted
 			setLimit(2)
@@ -355,28 +544,6 @@ func TestVerifC20(t *testing.T) {
 			// directed: the tip beyond every expiration height.  Nothing is dropped, hidden or
 			// uncounted; a superseding update whose own expiration height is already below the
 			// tip is accepted; a full registry stays full although every entry is past its height.
-			dput := func(k int, rev uint64, d byte, exp uint64) {
-				e := rhp3.RegistryEntry{RegistryKey: keyOf(k), RegistryValue: rhp3.RegistryValue{Revision: rev, Type: rhp3.EntryTypeArbitrary, Data: []byte{d}}}
-				e.Signature = renters[k/2].SignHash(e.Hash())
-				tie := false
-				old, gerr := reg.Get(e.RegistryKey)
-				if gerr == nil {
-					tie = rhp3.ValidateRegistryUpdate(rhp3.RegistryEntry{RegistryKey: e.RegistryKey, RegistryValue: old}, e, hostID) == nil
-				}
-				ret, err := reg.Put(e, exp)
-				em.Step(fmt.Sprintf("Put %d %s %d true %s", k, entryOf(e.RegistryValue), exp, coqBool(tie)), fmt.Sprintf("OPut %s %s", coqBool(err == nil), vidOf(ret)))
-				if err == nil {
-					shadow[k] = vidOf(e.RegistryValue)
-					shadowExp[k] = exp
-				}
-			}
-			all := func() {
-				for k := 0; k < 4; k++ {
-					get(k)
-					expOf(k)
-				}
-				info()
-			}
 			setLimit(3)
 			dput(0, 1, 1, 100)
 			dput(1, 1, 2, 110)
@@ -399,6 +566,51 @@ func TestVerifC20(t *testing.T) {
 				tip(0) // the tip moves back (reorg to a shorter chain index)
 				all()
 			}
+		} else if id == 3 {
+			// directed: the lookup of the stored entry fails while a stale, an equal and a newer update
+			// arrive (seeded C20-mut9: a failed lookup is not "key not stored"); the write fails; the
+			// count/limit read fails.  Nothing changes, reads return the last accepted update.
+			setLimit(2)
+			dput(0, 5, 1, 100)
+			dputF(0, 3, 2, "lookup")
+			all()
+			dputF(0, 5, 1, "lookup")
+			dputF(0, 7, 3, "lookup")
+			all()
+			dputF(0, 8, 4, "write")
+			dputF(1, 1, 5, "write")
+			dputF(1, 1, 5, "lookup")
+			all()
+			getFault(0)
+			getFault(2)
+			infoFault()
+			all()
+			dput(0, 6, 6, 100)
+			dput(1, 1, 7, 100)
+			all()
+		} else if id == 4 {
+			// directed: updates of a stored key, reads, then the access recorder is flushed (seeded
+			// C20-mut10: the flush must not touch the registry-entries metric); a failing flush loses
+			// the pending counts and nothing else
+			setLimit(2)
+			dput(0, 1, 1, 100)
+			dput(0, 2, 2, 100)
+			dput(0, 3, 3, 100)
+			get(0)
+			info()
+			flush(true)
+			info()
+			dput(1, 1, 4, 100)
+			dput(0, 4, 5, 100)
+			get(1)
+			flush(false)
+			info()
+			dput(0, 5, 6, 100)
+			dput(0, 5, 6, 100)
+			get(0)
+			get(3)
+			flush(true)
+			all()
 		} else if id >= n+directed {
 			// decode id-n-directed into a sequence over the alphabet
 			e := id - n - directed
@@ -417,11 +629,14 @@ func TestVerifC20(t *testing.T) {
 					ent := rhp3.RegistryEntry{RegistryKey: keyOf(k), RegistryValue: rhp3.RegistryValue{Revision: rev, Type: rhp3.EntryTypeArbitrary, Data: []byte{byte(i)}}}
 					ent.Signature = renters[k/2].SignHash(ent.Hash())
 					tie := false
-					old, gerr := reg.Get(ent.RegistryKey)
+					old, gerr := db.GetRegistryValue(ent.RegistryKey)
 					if gerr == nil {
 						tie = rhp3.ValidateRegistryUpdate(rhp3.RegistryEntry{RegistryKey: ent.RegistryKey, RegistryValue: old}, ent, hostID) == nil
 					}
 					ret, err := reg.Put(ent, 100)
+					if err == nil && gerr == nil {
+						accW++
+					}
 					em.Step(fmt.Sprintf("Put %d %s 100 true %s", k, entryOf(ent.RegistryValue), coqBool(tie)), fmt.Sprintf("OPut %s %s", coqBool(err == nil), vidOf(ret)))
 					if err == nil {
 						if gerr == nil && !tie {
@@ -446,7 +661,29 @@ func TestVerifC20(t *testing.T) {
 			setLimit(uint64(rng.Intn(4)))
 			steps := 5 + rng.Intn(25)
 			for i := 0; i < steps; i++ {
-				switch r := rng.Intn(20); {
+				switch r := rng.Intn(24); {
+				case r >= 20 && r < 22:
+					// a Put whose lookup or write fails, mostly on a stored key
+					k := rng.Intn(4)
+					if len(shadow) > 0 && rng.Intn(4) != 0 {
+						for shadow[k] == "" {
+							k = (k + 1) % 4
+						}
+					}
+					putWith(k, []string{"lookup", "lookup", "write"}[rng.Intn(3)])
+					get(k)
+					expOf(k)
+					info()
+				case r == 22:
+					flush(rng.Intn(4) != 0)
+					info()
+				case r == 23:
+					if rng.Intn(2) == 0 {
+						getFault(rng.Intn(4))
+					} else {
+						infoFault()
+					}
+					info()
 				case r < 12:
 					k := rng.Intn(4)
 					put(k)
@@ -480,6 +717,8 @@ func TestVerifC20(t *testing.T) {
 				get(k)
 				expOf(k)
 			}
+			info()
+			flush(true)
 			info()
 		}
 		// Close flushes the access recorder into the store; it must not crash the host
